@@ -1,6 +1,6 @@
 # the top-level packet parser, one query per packet tag (the tag octet is concrete, everything after it symbolic)
 _T_ALL = (1, 3, 4, 6, 8, 9, 10, 11, 13, 14, 17, 18, 19, 20)        # tags 2, 5, 7 (signature, secret key): no verdict in 15 min even at 4 octets
-H(id='C12_pgp_packetdecode', property='C12', src='C12_openpgp.cc', entry='h_packet_decode', tu=PGP, unwind=10, defines={'H_MAXLEN': 16}, full_checks=True, models=GCRY_MODELS, timeout=900,
+H(id='C12_pgp_packetdecode', property='C12', src='C12_openpgp.cc', entry='h_packet_decode', tu=PGP, unwind=10, defines={'H_MAXLEN': 16}, full_checks=True, models=GCRY_MODELS, timeout=1800,
   desc='arbitrary bytes into PacketDecode (new-format header, length forms, dispatch into the tag decoder): no out-of-bounds access, invalid iterator range, assert/abort, non-standard exception',
   symbolic='every byte string of the slice length behind the fixed tag octet', bounds='4 octets (quick: tags 1,3,4,8,9,11,13,19) / 4 and 7 octets (thorough: tags %s); signature and secret-key packets (tags 2,5,7) not covered' % (_T_ALL,),
   assumptions=['libgcrypt MPI functions replaced by models/gcry_model.c'],
